@@ -40,6 +40,9 @@ type c10Call struct {
 	Vars  int    `json:"vars"` // 0 nil VarMap, 1 VarMap with values
 	// >0: the io.Writer accepts this many bytes and then fails every write
 	WriterFailsAfter int `json:"writer_fails_after,omitempty"`
+	// 1: the template of that name in a second Set over the same sources whose escaper is switched off
+	// (pooled Runtimes are shared by all Sets of the process)
+	Set int `json:"set,omitempty"`
 }
 
 type c10FaultyWriter struct {
@@ -79,7 +82,7 @@ func genC10(t *rapid.T) c10Case {
 	n := rapid.IntRange(3, 8).Draw(t, "ntemplates")
 	for i := 0; i < n; i++ {
 		path := fmt.Sprintf("/t%d.jet", i)
-		kind := rapid.SampledFrom([]string{"ordinary", "failing", "failing", "probing", "probing", "embprobe", "returning", "nested-ranges", "trying"}).Draw(t, "kind")
+		kind := rapid.SampledFrom([]string{"ordinary", "failing", "failing", "probing", "probing", "embprobe", "returning", "nested-ranges", "trying", "publishing"}).Draw(t, "kind")
 		var body []*mj.Node
 		rt := mj.Print(mj.Call("rtprobe"))
 		switch kind {
@@ -103,9 +106,13 @@ func genC10(t *rapid.T) c10Case {
 			// try bodies that succeed: their buffered output is handed to the destination (which may fail half-way)
 			body = []*mj.Node{{K: "try", Body: []*mj.Node{mj.Text("tried:"), mj.Print(mj.Dot()), mj.Text(":0123456789abcdefghijklmnopqrstuvwxyz"),
 				{K: "try", Body: []*mj.Node{mj.Text("(inner "), mj.Print(mj.Var("xs")), mj.Text(")")}}}, HasCatch: rapid.Bool().Draw(t, "tryCatch"), Catch: []*mj.Node{mj.Text("(unreachable)")}}, mj.Text("after-try")}
+		case "publishing":
+			// a function that declares a variable through the Runtime API (LetGlobal): visible to the rest of
+			// this execution only, whatever VarMap (nil or not) the caller passed
+			body = []*mj.Node{mj.Print(mj.Call("publish")), mj.Text("published:"), mj.Print(mj.Call("isset", mj.Var("pub")))}
 		case "returning":
 			// a {{return}} inside a range: the loop ends early (pooled cursors must survive that)
-			sub := []string{"xs", "m1", "sarr"}[rapid.IntRange(0, 2).Draw(t, "retsubject")]
+			sub := []string{"xs", "m1", "sarr", "m3"}[rapid.IntRange(0, 3).Draw(t, "retsubject")]
 			body = []*mj.Node{{K: "range", E: mj.Var(sub), Body: []*mj.Node{mj.Text("r"), mj.If(mj.Bool(true), []*mj.Node{{K: "return", E: mj.Num(1)}}, nil)}}, mj.Text("after")}
 		case "nested-ranges":
 			sub := []string{"xs", "m1", "sarr"}[rapid.IntRange(0, 2).Draw(t, "nestsubject")]
@@ -120,7 +127,10 @@ func genC10(t *rapid.T) c10Case {
 					body = append(body, mj.Text(d+":"), mj.Print(mj.Call("isset", mj.Var(d))), mj.Text(" "))
 				}
 			}
-			body = append(body, mj.Text("wp:"), mj.Print(mj.Call("isset", mj.Var("wp"))), mj.Text("]"))
+			body = append(body, mj.Text("wp:"), mj.Print(mj.Call("isset", mj.Var("wp"))), mj.Text(" pub:"), mj.Print(mj.Call("isset", mj.Var("pub"))), mj.Text("]"))
+			if rapid.IntRange(0, 1).Draw(t, "probeEmptyMap") == 0 {
+				body = append(body, &mj.Node{K: "range", Names: []string{"ek", "ev"}, Decl: true, E: mj.Var("emptym"), Body: []*mj.Node{mj.Text("<stale "), mj.Print(mj.Var("ek")), mj.Text(">")}, HasElse: true, Else: []*mj.Node{mj.Text("<no entries>")}})
+			}
 			if rapid.IntRange(0, 2).Draw(t, "probeRange") == 0 {
 				body = append(body, &mj.Node{K: "range", E: mj.Call("slice", mj.Str("p1"), mj.Str("p2")), Body: []*mj.Node{mj.Text("<"), mj.Print(mj.Dot()), mj.Text(">")}})
 			}
@@ -134,6 +144,8 @@ func genC10(t *rapid.T) c10Case {
 	g.p.Vars["xs"] = mj.RInts(1, 2, 3)
 	g.p.Vars["m1"] = mj.Recipe{T: "map[string]int", Keys: []string{"only"}, Is: []int64{7}}
 	g.p.Vars["sarr"] = mj.Recipe{T: "sarray", Ss: []string{"p", "q"}}
+	g.p.Vars["m3"] = mj.Recipe{T: "map[string]int", Keys: []string{"a", "b", "c", "d"}, Is: []int64{1, 2, 3, 4}}
+	g.p.Vars["emptym"] = mj.Recipe{T: "map[string]int"}
 	ncalls := rapid.IntRange(2, 15).Draw(t, "ncalls")
 	for i := 0; i < ncalls; i++ {
 		c.Calls = append(c.Calls, c10Call{
@@ -142,6 +154,7 @@ func genC10(t *rapid.T) c10Case {
 			Vars:  rapid.IntRange(0, 1).Draw(t, "vars"),
 			// sometimes the destination fails after a few bytes (a connection that breaks mid-response)
 			WriterFailsAfter: []int{0, 0, 0, 0, 1, 7, 30}[rapid.IntRange(0, 6).Draw(t, "writerFault")],
+			Set:              []int{0, 0, 0, 1}[rapid.IntRange(0, 3).Draw(t, "whichSet")],
 		})
 	}
 	src := mj.NewPrinter().Sources(g.p)
@@ -234,31 +247,41 @@ func hashTemplate(t *jet.Template) uint64 {
 
 func judgeC10(c c10Case) (v core.Verdict) {
 	src := mj.NewPrinter().Sources(c.Prog)
-	s, _ := jetrun.NewSet(src)
 	var rtLog []string
-	s.AddGlobalFunc("rtprobe", func(a jet.Arguments) reflect.Value {
-		rtLog = append(rtLog, fmt.Sprintf("%p", a.Runtime()))
-		return reflect.Value{}
-	})
-	for k, f := range failFuncs() {
-		s.AddGlobalFunc(k, f)
-	}
-	for k, r := range c.Prog.Vars {
-		s.AddGlobal(k, mj.Build(r))
-	}
+	sets := [2]*jet.Set{}
+	sets[0], _ = jetrun.NewSet(src)
+	sets[1], _ = jetrun.NewSet(src, jet.WithSafeWriter(nil))
 	tpls := map[string]*jet.Template{}
 	hashes := map[string]uint64{}
-	for _, f := range c.Prog.Files {
-		t, o := jetrun.Get(s, f.Path)
-		if o.Failed() {
-			v.Discard = "pool template does not parse"
-			return
+	for si, s := range sets {
+		s.AddGlobalFunc("rtprobe", func(a jet.Arguments) reflect.Value {
+			rtLog = append(rtLog, fmt.Sprintf("%p", a.Runtime()))
+			return reflect.Value{}
+		})
+		s.AddGlobalFunc("publish", func(a jet.Arguments) reflect.Value {
+			a.Runtime().LetGlobal("pub", "P")
+			return reflect.Value{}
+		})
+		for k, f := range failFuncs() {
+			s.AddGlobalFunc(k, f)
 		}
-		tpls[f.Path] = t
-		hashes[f.Path] = hashTemplate(t)
+		for k, r := range c.Prog.Vars {
+			s.AddGlobal(k, mj.Build(r))
+		}
+		for _, f := range c.Prog.Files {
+			t, o := jetrun.Get(s, f.Path)
+			if o.Failed() {
+				v.Discard = "pool template does not parse"
+				return
+			}
+			key := fmt.Sprintf("%d:%s", si, f.Path)
+			tpls[key] = t
+			hashes[key] = hashTemplate(t)
+		}
 	}
+	tplOf := func(call c10Call) *jet.Template { return tpls[fmt.Sprintf("%d:%s", call.Set, call.Entry)] }
 	// the data values are built once: some templates print '.', and pointers print as addresses
-	datas := []interface{}{nil, "D1", map[string]interface{}{"k": "D2"}, &c10Emb{c10PEmb: &c10PEmb{PName: "promoted"}, Name: "emb"}, &c10Emb{Name: "emb-nil"}}
+	datas := []interface{}{nil, "D<1>&", map[string]interface{}{"k": "D\"2'"}, &c10Emb{c10PEmb: &c10PEmb{PName: "promoted"}, Name: "emb"}, &c10Emb{Name: "emb-nil"}}
 	exec := func(call c10Call) jetrun.Outcome {
 		data := datas[call.Data]
 		var vars jet.VarMap
@@ -276,11 +299,11 @@ func judgeC10(c c10Case) (v core.Verdict) {
 					}
 					o.Out = string(w.buf)
 				}()
-				o.Err = tpls[call.Entry].Execute(w, vars, data)
+				o.Err = tplOf(call).Execute(w, vars, data)
 			}()
 			return o
 		}
-		return jetrun.Exec(tpls[call.Entry], vars, data)
+		return jetrun.Exec(tplOf(call), vars, data)
 	}
 	// expectations: every call on fresh pools
 	var want []jetrun.Outcome
@@ -373,7 +396,7 @@ func judgeC10(c c10Case) (v core.Verdict) {
 	}
 	// second opinion: the reference interpreter, where it is defined
 	for i, call := range c.Calls {
-		if want[i].Err != nil || want[i].Panicked || call.Vars == 1 || call.Data >= 3 || call.WriterFailsAfter > 0 {
+		if want[i].Err != nil || want[i].Panicked || call.Vars == 1 || call.Data >= 3 || call.WriterFailsAfter > 0 || call.Set != 0 {
 			continue
 		}
 		p := *c.Prog
@@ -382,10 +405,10 @@ func judgeC10(c c10Case) (v core.Verdict) {
 		p.Vars = nil
 		switch call.Data {
 		case 1:
-			d := mj.RStr("D1")
+			d := mj.RStr("D<1>&")
 			p.Data = &d
 		case 2:
-			d := mj.Recipe{T: "map[string]any", Keys: []string{"k"}, Elems: []mj.Recipe{mj.RStr("D2")}}
+			d := mj.Recipe{T: "map[string]any", Keys: []string{"k"}, Elems: []mj.Recipe{mj.RStr("D\"2'")}}
 			p.Data = &d
 		}
 		m, discard := mj.ModelRun(&p, func(in *mj.Interp) {
@@ -401,7 +424,7 @@ func judgeC10(c c10Case) (v core.Verdict) {
 
 func TestC10(t *testing.T) {
 	core.Run(t, "C10",
-		"histories of 2-15 Execute calls (template, nil/string/map data, nil or non-nil VarMap, destination that works or fails after 1/7/30 bytes) on one goroutine over a pool of 3-8 generated templates: ordinary, failing (failure of any of 24 kinds below range / if-let / block / yield-with-content / yielded block body / include with context / inner try, uncaught or caught), trying (successful try bodies, nested), returning from a range, nested ranges over the same value, and probing (top-level yield content, '.', isset of names other templates declare, a range); oracle = every call reproduces byte for byte (errors: nil-ness and position) what the same call renders right after the object pools were emptied by two forced GCs, while the history runs with GOMAXPROCS(1) and GC off so the pooled Runtime is reused (pointer observed through a probe function); structural hash of every Template before/after; reference interpreter as second opinion; non-trivial = a failing execution followed by a probing one on the same Runtime pointer",
+		"histories of 2-15 Execute calls (template, nil/string/map data, nil or non-nil VarMap, destination that works or fails after 1/7/30 bytes) on one goroutine over a pool of 3-8 generated templates: ordinary, failing (failure of any of 24 kinds below range / if-let / block / yield-with-content / yielded block body / include with context / inner try, uncaught or caught), trying (successful try bodies, nested), returning from a range (slice, array, 1- and 4-entry maps), nested ranges over the same value, publishing (a function calling Runtime.LetGlobal) and probing (top-level yield content, '.', isset of names other templates declare or publish, a range, a range-else over an empty map), each call on one of two Sets over the same sources (default escaper / escaper off; data with HTML-special bytes); oracle = every call reproduces byte for byte (errors: nil-ness and position) what the same call renders right after the object pools were emptied by two forced GCs, while the history runs with GOMAXPROCS(1) and GC off so the pooled Runtime is reused (pointer observed through a probe function); structural hash of every Template before/after; reference interpreter as second opinion; non-trivial = a failing execution followed by a probing one on the same Runtime pointer",
 		genC10, judgeC10)
 }
 
